@@ -98,7 +98,25 @@ let enum limit line =
       dfs (init c ps) [] 0
   | _ -> failwith "bad config"
 
+(* kind table.  case: "work" | "rnd" | "fs <index> <name>" | "gai <0|1> ..." | "gni <flags> ..."
+   output: "<kind> <queue>"; kind = c/f/s as handed to uv__work_submit ("?" for uv_queue_work, whose
+   call of uv__work_submit is inside threadpool.c and cannot be intercepted), queue = slow|wq *)
+let kinds line =
+  let kc = function KCpu -> "c" | KFast -> "f" | KSlow -> "s" in
+  let out a hidden =
+    (if hidden then "?" else kc (api_kind a)) ^ " " ^ (if api_kind a = KSlow then "slow" else "wq") in
+  match split_on ' ' line with
+  | "work" :: _ -> out AQueueWork true
+  | "rnd" :: _ -> out ARandom false
+  | "fs" :: i :: _ -> out (AFs (nat_of_int (int_of_string i))) false
+  | "gai" :: n :: _ -> out (AGetaddrinfo (n = "1")) false
+  | "gni" :: f :: _ -> out (AGetnameinfo (z_of_string f)) false
+  | _ -> failwith ("bad kinds case " ^ line)
+
 let () =
+  if Array.length Sys.argv > 1 && Sys.argv.(1) = "kinds" then
+    iter_lines (fun l -> print_string (try kinds l with Failure m -> "bad " ^ m); print_newline ())
+  else
   if Array.length Sys.argv > 2 && Sys.argv.(1) = "enum" then
     iter_lines (fun l -> if String.trim l <> "" then enum (int_of_string Sys.argv.(2)) l)
   else
